@@ -1,9 +1,21 @@
+TRUST_M = "Trusted: the reference IC10 machine (vp/ic10.py), the reference executor (vp/ref.py), the repository's enum name tables. Known defects of the pinned tree are listed in known_findings.json and exercised by witness families."
+XRUN = "bounded-exhaustive program enumeration x stateless deviation-bounded exploration of environment answers on an explicit-state IC10 machine"
 ROWS = [
  ("C01", "model_checking",
   "Bounded-exhaustive: every program of the CTRL/CTRL2/EXPR/FUNC/DEV/LIST families is compiled by the real compiler; for each, every sequence of device/stack answers over a per-program alphabet (full product, or <= 2 deviations when the product exceeds the cap) up to an effect horizon is executed on an explicit-state IC10 machine and on a CPython reference executor; effect traces must agree. A coverage statement, not a proof: programs, values and horizons beyond the bounds are not covered.",
-  "Trusted: the reference IC10 machine (vp/ic10.py), the reference executor (vp/ref.py), the repository's enum name tables. Known defects of the pinned tree are listed in known_findings.json and exercised by witness families.",
-  "bounded-exhaustive program enumeration x stateless deviation-bounded exploration of environment answers on an explicit-state IC10 machine, conformance against a CPython reference executor",
+  TRUST_M,
+  XRUN + ", conformance against a CPython reference executor",
   "DESIGN.md 4/C01"),
+ ("C02", "model_checking",
+  "Bounded-exhaustive and differential: every program of FUNC/LIST/DEV and a CTRL sub-family is compiled under all 2^5 behaviour-relevant option vectors, each given through the API and through '# pytrapic:' directive lines (all 2^8 vectors on a sub-family); every distinct emitted program is executed for every explored device-answer sequence on the explicit-state IC10 machine with call/stack-pointer monitors; all effect traces must equal each other and the reference executor's.",
+  TRUST_M,
+  XRUN + " over all option vectors (API and pragma), differential + reference conformance",
+  "DESIGN.md 4/C02"),
+ ("C04", "model_checking",
+  "Bounded-exhaustive with a shadow-tag monitor: programs of the REG family (1..20 simultaneously live values x 11 lifetime shapes) and of FUNC/LIST/CTRL/DEV under the four calling-convention vectors are executed for every explored device-answer sequence; on every machine transition each register read through an operand that was virtual register v before allocation must find the value last written through v; zeroed vs poisoned initial registers must give the same trace; only r0..r15 occur; a rejection must be the out-of-registers error.",
+  TRUST_M + " The pre-allocation names come from a harness-side wrapper of generate_code.assign_registers (no change in /repo).",
+  XRUN + " with per-transition shadow register tags (pre-allocation virtual register names captured from the real allocator)",
+  "DESIGN.md 4/C04"),
 ]
 ALL = ["C%02d" % i for i in range(1, 19)]
 _claimed = {r[0] for r in ROWS}
